@@ -81,6 +81,7 @@ type Case struct {
 	Shutdown  bool        `json:"shutdown,omitempty"`   // shutdown moves are enabled
 	Path      string      `json:"path,omitempty"`       // key-space prefix of every provider ("" = /locks/)
 	NameStyle int         `json:"name_style,omitempty"` // how lock name i is spelled: 0 "n<i>", 1 one letter, 2 "k" + 3*i times "z"
+	FaultErr  int         `json:"fault_err,omitempty"`  // shape of the injected storage errors (see transientErr in lease.go; 0 = a plain error)
 	HonourCtx bool        `json:"honour_ctx,omitempty"` // the storage refuses calls whose context is done (as a networked backend does)
 }
 
@@ -647,6 +648,7 @@ func (e *eng) run() *vstat.Violation {
 	e.inner = inmem.New()
 	e.g = gated.New(e.inner)
 	e.g.HonourCtx = c.HonourCtx
+	e.g.InjectErr = transientErr(c.FaultErr)
 	e.faultAt = map[int]int{}
 	for _, f := range c.Faults {
 		if f.Kind == 1 || f.Kind == 2 {
